@@ -26,6 +26,10 @@ Fixpoint all_files (l : list anyspec) : option (list fspec) :=
 
 Definition abs_sec_leaf (h : sechdr) (buf : bytes) : option anyspec :=
   let t := s_type h in
+  if s_hlen h =? 8 then
+    (* extended common header: only leaf sections keep that form *)
+    if leaf_type t then Some (AS (SLeafL t (zskipn 8 buf))) else None
+  else
   if negb (s_hlen h =? 4) then None else
   let body := zskipn 4 buf in
   if t =? 2 then
